@@ -36,10 +36,16 @@ def l1(b):
 
 # ----------------------------------------------------------------------------- doubles
 class FakeSock(socket.socket):
+    calls = 0           # getpeername() calls in the current case
+    gone_after = None   # fault injection: the peer has gone away, getpeername() raises ENOTCONN from this call on
+
     def __init__(self, n):
         self.n = n
 
     def getpeername(self):
+        FakeSock.calls += 1
+        if FakeSock.gone_after is not None and FakeSock.calls > FakeSock.gone_after:
+            raise OSError(107, 'Transport endpoint is not connected')
         return ('127.0.0.1', 5000 + self.n)
 
     def __hash__(self):
@@ -84,13 +90,16 @@ class Probe(BaseComponent):
     def __init__(self):
         super().__init__()
         self.log = []
+        self.keep = []
 
     @handler('request', priority=100)
     def _rq(self, event, req, res, *a):
+        self.keep.append(req)              # keeps id(req) unique for the whole case
         self.log.append(['request', id(req), req.method])
 
     @handler('httperror', priority=100)
     def _he(self, event, req, res, code=None, **kw):
+        self.keep.append(req)
         self.log.append(['httperror', id(req), int(event.code)])
 
     @handler('write', priority=100)
@@ -123,9 +132,14 @@ class Trace:
     calls = []          # [tag, answer] in call order, for the current operation
     parser = None       # the parser whose execute() ran last
     req = None          # the Request built by the main path in this operation
+    acc = False         # parser accessors were evaluated for a Request(...) call in this operation
 
 
 class TParser(RealParser):
+    def get_method(self):
+        Trace.acc = True        # first accessor evaluated for the arguments of either Request(...) call in _on_read
+        return super().get_method()
+
     def execute(self, data, length):
         Trace.parser = self
         try:
@@ -271,6 +285,7 @@ def decode_responses(data, methods):
 # ----------------------------------------------------------------------------- the driver
 def run_case(case):
     install()
+    FakeSock.calls, FakeSock.gone_after = 0, case.get('gone')
     old_err = sys.stderr
     sys.stderr = err = io.StringIO()
     try:
@@ -293,7 +308,7 @@ def run_case(case):
             kind, n = o[0], o[1]
             s = socks.setdefault(n, FakeSock(n))
             n0 = len(probe.log)
-            Trace.calls, Trace.req = [], None
+            Trace.calls, Trace.req, Trace.acc = [], None, False
             held = getattr(httpc, '_clients', {}).get(s)
             if kind == 'r':
                 m.fire(read(s, o[2].encode('latin-1')), 'web')
@@ -301,6 +316,13 @@ def run_case(case):
                 m.fire(disconnect(s), 'web')
             if not drain(m):
                 stuck = True
+            # the statement `req = wrappers.Request(sock, parser.get_method(), parser.get_scheme(), ...)` can raise while its
+            # arguments are evaluated (parser.get_scheme() on a parser that never saw a valid request line): same oracle
+            tags = [t for t, _ in Trace.calls]
+            if Trace.acc and 'excreq' in tags and tags.index('excreq') > 0 and tags[tags.index('excreq') - 1] == 'exec' \
+                    and Trace.calls[tags.index('exec')][1] is not None:
+                hc_now = Trace.calls[tags.index('exec')][1][0]
+                Trace.calls.insert(tags.index('excreq'), ['req' if hc_now else 'errreq', None])
             new = probe.log[n0:]
             effs, methods, wbytes, prev = [], [], b'', None
             problems = []
@@ -367,8 +389,58 @@ def run_case(case):
     finally:
         sys.stderr = old_err
         uninstall()
+        FakeSock.gone_after = None
     return {'steps': steps, 'pong': pong, 'after_ping': extra, 'stuck': stuck, 'stderr': err.getvalue()[-400:],
             'final': final, 'retained_for': open_socks}
+
+
+def run_burst(case):
+    """all operations queued before the loop runs: only the oracle looks at these (not modelled)"""
+    old_err = sys.stderr
+    sys.stderr = err = io.StringIO()
+    try:
+        m = Manager()
+        srv = FakeServer()
+        srv.secure = bool(case.get('secure'))
+        srv.register(m)
+        httpc = HTTP(srv).register(m)
+        srv.http = httpc
+        Dispatcher().register(m)
+        Root().register(m)
+        probe = Probe().register(m)
+        stuck = not drain(m)
+        socks = {}
+        for o in case['ops']:
+            s = socks.setdefault(o[1], FakeSock(o[1]))
+            m.fire(read(s, o[2].encode('latin-1')) if o[0] == 'r' else disconnect(s), 'web')
+        if not drain(m):
+            stuck = True
+        written, methods, closes, excs = {}, {}, {}, []
+        for rec in probe.log:
+            if rec[0] == 'write':
+                written[rec[1]] = written.get(rec[1], b'') + rec[2]
+            elif rec[0] == 'close':
+                closes[rec[1]] = closes.get(rec[1], 0) + 1
+            elif rec[0] == 'exception':
+                excs.append([rec[1], rec[2]])
+        problems = []
+        nresp = {}
+        for n, data in sorted(written.items()):
+            rs = decode_responses(data, [])
+            nresp[str(n)] = [r[:4] for r in rs]
+            problems += ['connection %d: %s' % (n, r[4]) for r in rs if r[4]]
+        n0 = len(probe.log)
+        m.fire(ping(), 'web')
+        drain(m)
+        pong = ['pong'] in probe.log[n0:]
+        gone = [o[1] for o in case['ops'] if o[0] == 'd']
+        retained = sorted(n for n, s in socks.items() if n in gone and
+                          (s in getattr(httpc, '_buffers', {}) or s in getattr(httpc, '_clients', {})))
+    finally:
+        sys.stderr = old_err
+    return {'burst': True, 'responses': nresp, 'problems': problems, 'exceptions': excs, 'pong': pong, 'stuck': stuck,
+            'stderr': err.getvalue()[-400:], 'retained_for': retained,
+            'requests': len([r for r in probe.log if r[0] == 'request'])}
 
 
 # ----------------------------------------------------------------------------- generator
@@ -492,7 +564,7 @@ class C14(Prop):
     id = 'C14'
     props_file = 'Props/C14.v'
     imports = ['Model.HttpRobust', 'Model.HttpRobustObs']
-    quick_n = 700
+    quick_n = 560
     thorough_n = 9000
     rule = ('well-formed requests (GET, HTTP/1.0, POST with Content-Length, POST chunked, long headers) mutated by one of '
             + str(len(MUTATIONS)) + ' classes (request-line parts/version/major/fragment, header without colon, bad header name, '
@@ -512,15 +584,15 @@ class C14(Prop):
 
     def __init__(self):
         self._rec = {}
-        self.stats = {'mutation_classes': {}, 'effects': {}, 'ops': 0, 'reads': 0, 'disconnects': 0, 'call_sites': {},
+        self.stats = {'peer_gone_cases': 0, 'mutation_classes': {}, 'effects': {}, 'ops': 0, 'reads': 0, 'disconnects': 0, 'call_sites': {},
                       'raise_answers': {}, 'expectations': {}}
 
     # ---- cases
     def generate(self, rng, n, tier):
         cases = []
         # truncation at every offset of base requests, then disconnect
-        nb = 2 if tier == 'quick' else 5
-        for data, kind in bases(rng)[:nb] if tier == 'quick' else bases(rng):
+        bs = bases(rng)
+        for data, kind in ([bs[0], bs[2]] if tier == 'quick' else bs + bases(rng)):
             tail = chunked_tail_start(data) if kind == 'post-chunked' else len(data)
             for off in range(0, len(data) + 1):
                 exp = 'incomplete' if off < min(tail, len(data)) else 'any'
@@ -550,14 +622,35 @@ class C14(Prop):
                 ops.insert(rng.randint(1, len(ops)), ['d', 1])
             if rng.random() < 0.15:                      # the same socket object is used again after the disconnect
                 ops.append(['r', 0, l1(req_bytes(headers=[('Host', 'localhost:8000')])), 'again'])
-            cases.append({'secure': rng.random() < 0.1, 'cls': kind, 'expect': exp, 'ops': ops})
+            case = {'secure': rng.random() < 0.1, 'cls': kind, 'expect': exp, 'ops': ops}
+            r2 = rng.random()
+            if r2 < 0.08:
+                # fault at a particular point: the peer goes away, every Request constructor from the k-th on raises
+                case['gone'] = rng.randint(0, 2)
+            elif r2 < 0.20:
+                # all operations queued at once (reads that arrive before a close is effective, disconnect while the
+                # component's own events are still queued); no reads after the disconnect of a connection
+                seen, keep = set(), []
+                for o in ops:
+                    if o[0] == 'd':
+                        seen.add(o[1])
+                    elif o[1] in seen:
+                        continue
+                    keep.append(o)
+                case = dict(case, ops=keep, burst=True)
+            cases.append(case)
         return cases
 
     # ---- implementation
     def impl(self, case):
+        if case.get('burst'):
+            self.stats['burst_cases'] = self.stats.get('burst_cases', 0) + 1
+            return run_burst(case)
         obs = run_case(case)
         self._rec[common.canon(case)] = obs
         st = self.stats
+        if case.get('gone') is not None:
+            st['peer_gone_cases'] += 1
         st['mutation_classes'][case.get('cls', '?')] = st['mutation_classes'].get(case.get('cls', '?'), 0) + 1
         st['expectations'][case.get('expect', 'any')] = st['expectations'].get(case.get('expect', 'any'), 0) + 1
         for s in obs['steps']:
@@ -616,6 +709,8 @@ class C14(Prop):
         return '(mkA %s %s %s %s %s %s %s %s)' % (ssl, ex, er, rq, cl, pa, xr, N(s['app']))
 
     def model_term(self, case):
+        if case.get('burst'):
+            return None
         obs = self._rec.get(common.canon(case))
         if obs is None:
             obs = self.safe_impl(case)
@@ -648,6 +743,22 @@ class C14(Prop):
             return None
         if obs['stuck']:
             return 'the event queue does not settle'
+        if obs.get('burst'):
+            if not obs['pong']:
+                return 'the event loop no longer dispatches events after the case'
+            if obs['stderr']:
+                return 'output on stderr: %r' % obs['stderr'][-200:]
+            if obs['problems']:
+                return 'burst: %s' % obs['problems'][0]
+            for e in obs['exceptions']:
+                if e[1] != 'read':
+                    return 'burst: %s raised in the handler of %r' % (e[0], e[1])
+            if obs['retained_for']:
+                return 'retained-parser: burst: state for connection %d is retained although it has disconnected' % obs['retained_for'][0]
+            if case.get('expect') == 'malformed' and not any(o[3] in ('pre', 'again', 'other') for o in case['ops'] if o[0] == 'r') \
+                    and obs['requests']:
+                return 'accepted-malformed: burst: a request event is dispatched for a malformed message (%s)' % case.get('cls')
+            return None
         if not obs['pong']:
             return 'the event loop no longer dispatches events after the case'
         if obs['stderr']:
@@ -678,10 +789,11 @@ class C14(Prop):
                 return '%s: %d responses to one read' % (where, len(resp))
             if len(resp) != len(disp) + len(rej):
                 return '%s: %d responses for %d dispatched and %d rejected messages' % (where, len(resp), len(disp), len(rej))
+            gone = case.get('gone') is not None     # then no Request, hence no response, can be built: silence is all there is
             for e in exc:
-                if e[2] != 'read':
+                if e[2] != 'read' and not (gone and e[2] == 'exception' and e[1] == 'OSError'):
                     return '%s: %s raised in the handler of %r' % (where, e[1], e[2])
-            if exc and not (resp and resp[0][1] >= 500):
+            if exc and not gone and not (resp and resp[0][1] >= 500):
                 return '%s: %s raised in the read handler is not answered with a 5xx response' % (where, exc[0][1])
             if rej:
                 if disp:
@@ -716,6 +828,8 @@ class C14(Prop):
         return None
 
     def nontrivial(self, case, obs):
+        if isinstance(obs, dict) and obs.get('burst'):
+            return bool(obs['responses'])
         if not isinstance(obs, dict) or 'steps' not in obs:
             return False
         return any(s['effs'] for s in obs['steps'])
